@@ -2,6 +2,7 @@ import Lean.Data.Json
 import GristModel
 import Driver.Treeview
 import Driver.Engine
+import Driver.PyVal
 import Driver.Recalc
 import Driver.SchemaGen
 import Driver.CsvPost
@@ -30,6 +31,7 @@ def handleStateless (m : String) (j : Json) : Except String Json :=
   | "csvpost" => handleCsvPost j
   | "schemagen" => handleSchemaGen j
   | "recalc" => Grist.Driver.Recalc.handleRecalc j
+  | "pyval" => Grist.Driver.PyValD.handlePyVal j
   | _ => throw s!"unknown model {m}"
 
 structure AllState where
